@@ -5,7 +5,7 @@ pid = sys.argv[1]
 # round 2: tools/seed_prompt.py CNN C D  -> variants C and D, told (in one line each) what the earlier variants changed
 V1, V2 = (sys.argv[2], sys.argv[3]) if len(sys.argv) > 3 else ("A", "B")
 ROUND2 = V1 != "A"
-TAG = "seed2" if ROUND2 else "seed"
+TAG = "seed3" if V1 == "E" else "seed2" if ROUND2 else "seed"
 for l in open('/verif/properties.jsonl'):
     p = json.loads(l)
     if p['id'] == pid:
